@@ -15,14 +15,3 @@ Proof. vm_compute. repeat split. Qed.
 Lemma times_float_when_fits_witness :
   exists a b f, in64 a = true /\ in64 b = true /\ in64 (a * b) = true /\ eval_bin OTimes (NInt a) (NInt b) = RFloat f.
 Proof. exists 9223372036854775807, 1, (i2f 9223372036854775807). vm_compute. repeat split. Qed.
-
-Lemma pow_inexact_witness :
-  exists n, eval_bin OPow (NInt 3) (NInt 39) = RInt n /\ n <> 3 ^ 39 /\ in64 (3 ^ 39) = true.
-Proof. exists 4052555153018976256. vm_compute. repeat split. discriminate. Qed.
-
-Lemma int_preserving_value_witness :
-  eval_un (UMath FFloor) (NInt 9007199254740993) = RInt 9007199254740992
-  /\ eval_un (UMath FCeil) (NInt 9223372036854775807) = RInt min_int64
-  /\ eval_un (UMath FAbs) (NInt min_int64) = RInt min_int64
-  /\ eval_bin ORoundm (NInt 7) (NInt 0) = RInt min_int64.
-Proof. vm_compute. repeat split. Qed.
